@@ -66,8 +66,16 @@ def generate(seed, tier):
     cfg["win"] = rw.choice(["kaiser", "kaiser", "hann", "np_kaiser", "bartlett"])
     cfg["olap"] = rw.choice(["default", 0.5, 0.3, 0.75])
     kinds = ["numpy", "real-numba"] if big else list(WORLD_KINDS)
+    if big and rw.random() < 0.4:
+        SC.make_big_plan(rw, cfg)
+        cfg["Lmin"] = Lmin
+        N = rw.choice([1500, 3000])
     data = {"N": N + d, "channels": 1, "recipe": rw.choice(["noise", "noise", "multisine", "trend+noise", "randwalk", "sine+noise", "line+floor", "steepred"]),
             "rng": rw.randrange(2 ** 31), "scale": rw.choice([1.0, 1e-3, 1e3]), "offset": rw.choice([0.0, 0.0, 1.0]), "coupling": 0.0}
+    # data faults: non-finite samples in the base record z are zero-filled in both channels consistently
+    # (x and y are slices of z), so both laws survive sanitising
+    if rw.random() < 0.15:
+        data["nonfinite"] = [[rf.randrange(0, N + d), rf.choice(["nan", "pinf", "ninf"])] for _ in range(rf.randrange(1, 4))]
     singles = [[rw.randrange(0, 64)] for _ in range(rw.randrange(0, 3))]
     # further stages: the caller refills the SAME preallocated buffer in place and analyses again
     refills = []
@@ -82,14 +90,26 @@ def generate(seed, tier):
 
 
 def _records(sc):
-    z = SC.make_record(sc["data"])
+    """Returns (x, y) as handed to the analyzer (possibly with non-finite samples) and their zero-filled versions."""
+    spec = {k: v for k, v in sc["data"].items() if k != "nonfinite"}
+    z = SC.make_record(spec)
+    zf = z.copy()
+    for pos, kind in sc["data"].get("nonfinite", []):
+        if pos < len(z):
+            z[pos] = {"nan": np.nan, "pinf": np.inf, "ninf": -np.inf}[kind]
+            zf[pos] = 0.0
     d, N = sc["d"], sc["N"]
-    x = np.ascontiguousarray(z[d:d + N])
-    if sc["law"] == "gain":
-        y = sc["g"] * x
-    else:
-        y = np.ascontiguousarray(z[0:N])    # y[n] = x[n - d]
-    return x, y
+
+    def split(zz):
+        x = np.ascontiguousarray(zz[d:d + N])
+        if sc["law"] == "gain":
+            with np.errstate(invalid="ignore"):
+                y = sc["g"] * x
+        else:
+            y = np.ascontiguousarray(zz[0:N])    # y[n] = x[n - d]
+        return x, y
+
+    return split(z), split(zf)
 
 
 def execute(sc, out):
@@ -106,11 +126,13 @@ def execute(sc, out):
 
 
 def _execute_stage(sc, out, buf, stage):
-    x, y = _records(sc)
-    buf[0, :] = x
-    buf[1, :] = y
+    (xr, yr), (x, y) = _records(sc)
+    buf[0, :] = xr
+    buf[1, :] = yr
     data = buf
-    x, y = x.copy(), y.copy()
+    x, y = x.copy(), y.copy()          # zero-filled record: what the estimator is specified to see
+    if sc["data"].get("nonfinite"):
+        out.count("data_fault_nonfinite")
     cfg0 = sc["cfg"]
     fs = cfg0["fs"]
     d, g, law = sc["d"], sc["g"], sc["law"]
